@@ -127,6 +127,101 @@ class UamivLayout(object):
         return np.asarray(data, dtype='f')
 
 
+class One3dLayout(object):
+    """CAMx generic 3-D meteorological file (vertical diffusivity, humidity,
+    ...): no header; per step and per layer one record
+        [time f (HHMM)] [date i (YYJJJ)] [cells f]
+    framed by 4-byte big-endian length markers."""
+
+    def __init__(self, nz, T, cells, date0, time0, step=100, eod=2400):
+        self.nz, self.T, self.cells = nz, T, cells
+        self.step, self.eod = step, eod
+        self.times = []
+        d, t = date0, time0
+        for i in range(T):
+            self.times.append((d, t))
+            t2 = t + step
+            carry = t2 >= eod
+            if isinstance(carry, symx.SymBool):
+                carry = carry.e
+                d = symx.SymInt(z3.If(carry, symx._num(d)[1] + 1,
+                                      symx._num(d)[1]))
+                t = symx.SymInt(z3.If(carry, symx._num(t2)[1] - eod,
+                                      symx._num(t2)[1]))
+            else:
+                d, t = (d + 1, t2 - eod) if carry else (d, t2)
+        self.P = 4 * (2 + cells) + 8
+        self.B = nz * self.P
+        self.H = 0
+        self.records = []
+        self.length = T * self.B
+
+    def data_record(self, ti, k):
+        """k 1-based layer"""
+        return ti * self.B + (k - 1) * self.P
+
+    def all_dynamic(self):
+        return [(self.data_record(ti, k), self.P - 8, 'one', (ti, k))
+                for ti in range(self.T) for k in range(1, self.nz + 1)]
+
+    def write_real(self, path, rows, cols):
+        """encode with struct only; returns data[T, nz, rows, cols]"""
+        rng = np.random.RandomState(11)
+        data = rng.rand(self.T, self.nz, rows, cols).astype('>f4')
+        with open(path, 'wb') as f:
+            for ti in range(self.T):
+                d, t = self.times[ti]
+                for k in range(self.nz):
+                    body = struct.pack('>fi', float(t), int(d)) + \
+                        data[ti, k].tobytes()
+                    m = struct.pack('>i', len(body))
+                    f.write(m + body + m)
+        return np.asarray(data, dtype='f')
+
+
+class MetLayout(One3dLayout):
+    """header-less CAMx met files that interleave several fields: per step a
+    fixed sequence of records, each  [time f (HHMM)] [date i] [cells f].
+      temperature:      surface temperature, then air temperature per layer
+      height_pressure:  per layer height then pressure
+    `seq(nz)` lists (variable, layer index or None) per record of a step."""
+
+    KINDS = {
+        'one3d': lambda nz: [('UNKNOWN', k) for k in range(nz)],
+        'temperature': lambda nz: [('SURFTEMP', None)] + [
+            ('AIRTEMP', k) for k in range(nz)],
+        'height_pressure': lambda nz: [x for k in range(nz) for x in (
+            ('HGHT', k), ('PRES', k))],
+    }
+
+    def __init__(self, kind, nz, T, cells, date0, time0, step=100, eod=2400):
+        One3dLayout.__init__(self, nz, T, cells, date0, time0, step, eod)
+        self.kind = kind
+        self.seq = self.KINDS[kind](nz)
+        self.B = len(self.seq) * self.P
+        self.length = T * self.B
+
+    def write_fields(self, path, rows, cols):
+        """encode with struct only; returns {variable: array}"""
+        rng = np.random.RandomState(13)
+        out = {}
+        for var, k in self.seq:
+            if var not in out:
+                shp = (self.T, rows, cols) if k is None else \
+                    (self.T, self.nz, rows, cols)
+                out[var] = (rng.rand(*shp) * 300).astype('>f4')
+        with open(path, 'wb') as f:
+            for ti in range(self.T):
+                d, t = self.times[ti]
+                for var, k in self.seq:
+                    cell = out[var][ti] if k is None else out[var][ti, k]
+                    body = struct.pack('>fi', float(t), int(d)) + \
+                        cell.tobytes()
+                    m = struct.pack('>i', len(body))
+                    f.write(m + body + m)
+        return dict((k, np.asarray(v, dtype='f')) for k, v in out.items())
+
+
 class SymFile(object):
     """file object with a symbolic position over a reference layout; the
     twin's unpack_from_file asks model_unpack for the values the layout puts
@@ -159,6 +254,14 @@ class SymFile(object):
             return symx.SymReal(z3.Real('garbage!%d' % self.nfresh))
         return symx.SymInt(z3.Int('garbage!%d' % self.nfresh))
 
+    eof_raises = False
+
+    def _atleast(self, a, b):
+        if isinstance(a, int) and isinstance(b, int):
+            return a >= b
+        return self.ctx.prove(symx._b(symx._num(a)[1] >= symx._num(b)[1]))[0] \
+            == 'unsat'
+
     def _same(self, a, b):
         e = symx._b(symx._num(a)[1] == symx._num(b)[1]) \
             if not (isinstance(a, int) and isinstance(b, int)) \
@@ -170,6 +273,8 @@ class SymFile(object):
         size = struct.calcsize('>' + f)
         pos = self.pos
         out = None
+        if self.eof_raises and self._atleast(pos, self.lay.length):
+            raise struct.error('unpack requires a buffer of %d bytes' % size)
         # static header records (concrete offsets)
         cands = [(r.start, r.size, r.kind, r) for r in self.lay.records] + \
             list(self.dynamic)
@@ -185,6 +290,9 @@ class SymFile(object):
                 elif kind == 'time':
                     out = tuple(self.lay.times[ref])[:len(
                         struct.unpack('>' + f, b'\0' * size))]
+                elif kind == 'one':
+                    d, t = self.lay.times[ref[0]]
+                    out = (t, d)[:len(struct.unpack('>' + f, b'\0' * size))]
                 else:
                     out = None
                 break
